@@ -121,6 +121,13 @@ impl Ctx {
         }
     }
     pub fn wants_family(&self, family: &str) -> bool {
+        // development aid: VERIF_ONLY_FAMILY=<prefix> restricts a run to matching families
+        // (the evidence then lists only those; never set by the registered commands)
+        if let Ok(p) = std::env::var("VERIF_ONLY_FAMILY") {
+            if !family.starts_with(&p) {
+                return false;
+            }
+        }
         match &self.only {
             None => true,
             Some((f, _)) => f == family,
